@@ -83,6 +83,9 @@ func TestPlan(t *testing.T) {
 		p.Rule = "binary leg: generated spokfiles (random layouts, comments, lines around 64 KiB) are handed to the real CLI as a file; what `spok --fmt` writes back is the rendering of the tree the CLI built, and must equal the rendering of the tree the parser builds from the same text in-process (so reading the file — encoding, line ends, long lines — loses or alters nothing). Non-trivial: the file changed; distinct by source"
 		binShards("^TestFmtBinary$", 8, 40, 16, 600)
 		p.Shards = append(p.Shards, ev.ShardSpec{Name: "fmtboundary-0", Test: "^TestFmtBoundary$", TimeoutS: 900})
+	case "C04":
+		p.Rule = "binary leg: one task with literal and glob dependencies; the digest spok records in .spok/cache.json after a run from a fresh cache must be the same however spok is pointed at the project (from the project, a nested directory, --spokfile relative / absolute from the project, its parent, a sibling directory; project directories with odd names), must change when a dependency is edited, must not change when another file is, and must return when the edit is undone"
+		binShards("^TestDigestBinary$", 8, 30, 16, 300)
 	case "C18":
 		p.Level = "fault_enumeration"
 		p.Rule = "binary leg: a task whose literal dependencies are regular / empty / directory / missing / dangling link / link / unreadable (mode 0) files in every mixture of up to 6, run through the CLI as an unprivileged user under {plain, --force, --json, --quiet}: spok never dies (signal, panic); with an unopenable dependency and no --force it stops with a message, exits non-zero and does not run the task; otherwise it succeeds"
@@ -345,6 +348,12 @@ func replayOther(t *testing.T, v ev.Violation, raw []byte) *rp.Fail {
 			t.Fatal(err)
 		}
 		return execForce(nil, newBox(t), c)
+	case "digestbin":
+		var c DigestCase
+		if err := json.Unmarshal(raw, &c); err != nil {
+			t.Fatal(err)
+		}
+		return execDigest(nil, newBox(t), c)
 	case "fmtbin":
 		var c FmtCase
 		if err := json.Unmarshal(raw, &c); err != nil {
@@ -637,6 +646,17 @@ func TestFmtBoundary(t *testing.T) {
 	if s.Failed() {
 		t.Fatal("violations recorded")
 	}
+}
+
+func TestDigestBinary(t *testing.T) {
+	s := ev.Open(t, "C04")
+	b := newBox(t)
+	rp.Check(t, s, "digestbin", genDigest, func(c DigestCase) *rp.Fail {
+		if s.WantSample() {
+			s.Sample(map[string]any{"deps": c.Deps, "styles": c.Styles, "edit": c.Edit})
+		}
+		return execDigest(s, b, c)
+	})
 }
 
 func TestFail(t *testing.T) {
